@@ -50,8 +50,12 @@ RULE = ("E2: breadth-first search over ALL operation histories on a real behave.
         "WITHOUT deduplication (self-loops included, nothing shared between operations) to length 3 (quick) / 4 full + 5 "
         "attrs (thorough) must find no other canonical state and no other violation class. Every state-changing "
         "transition is followed by a full drain (leave modes, pop every frame, run the test-run cleanups) compared step "
-        "by step with the model. Reserved root names (failed, aborted, config, ...) x 4 stack shapes x 2 modes x 4 "
-        "scripts. E3: every placement of <= 3 (thorough 4) cleanup registrations {plain, args, kwargs, generator-fixture "
+        "by step with the model; get/in/use_or_assign/use_or_create are also applied to 'aborted', a name preset by "
+        "Context.__init__. Every name of a fresh Context's test-run frame (enumerated at run time) x 4 stack shapes x "
+        "2 modes x 4 write scripts. Read operations {in, hasattr, get, use_or_assign_param, use_or_create_param} x name "
+        "origins {preset by __init__ (all of those names), preset then _set_root_attribute, user-mode set, behave-mode "
+        "set, _set_root_attribute in either mode} x owner frame x 4 stack shapes x reading mode; the real runs probe "
+        "membership of every preset name at every callback. E3: every placement of <= 3 (thorough 4) cleanup registrations {plain, args, kwargs, generator-fixture "
         "teardown} x {current frame, layer=each present layer} on 4 stack shapes x EVERY raising subset x {default "
         "on_cleanup_error; custom one up to 2 (thorough 3) registrations}. E1: real ModelRunner runs of a tagged feature + outline + rule program (66-72 "
         "callbacks: all 12 hook kinds and all steps incl. execute_steps sub-steps) whose callbacks probe every name set "
@@ -77,6 +81,8 @@ NEXT_LAYERS = {"testrun": ("feature",), "feature": ("rule", "scenario"), "rule":
 MAXFUN = 3            # distinct cleanup functions alive in one state
 MAXMODE = 2           # nesting of mode context managers
 FIXTURES = ("gen", "genr", "plain", "badsetup", "comp", "compbad", "twoyield", "inner")
+PRESET = "aborted"    # a name that Context.__init__ presets in the test-run scope (documented: initially False);
+#                       the searches apply every READ operation to it (never a write)
 
 PROFILES = {
     # name: (attribute ops, names, cleanup ops, fixture kinds, mode ops)
@@ -108,7 +114,7 @@ class _Sink(object):
 # =============================================================================
 class Model(object):
     def __init__(self):
-        self.frames = [{"layer": "testrun", "data": {}, "cl": []}]   # outermost first
+        self.frames = [{"layer": "testrun", "data": {PRESET: False}, "cl": []}]   # outermost first
         self.modes = []
         self.nfx = 0
         self.ended = False
@@ -311,6 +317,9 @@ def enabled(m, profile):
                 ops.append(("root", n, v))
             ops.append(("uoa", n, 2))
             ops.append(("uoc", n, 1))
+    if attrs:
+        # read operations on a name whose origin is Context.__init__ itself
+        ops += [("get", PRESET), ("in", PRESET), ("uoa", PRESET, 2), ("uoc", PRESET, 1)]
     if cleanups:
         have = m.fids()
         cands = list(have)
@@ -808,7 +817,8 @@ def _bfs_case(profile, history, last):
             key = (mk, env.hidden())
             obs = (real, tuple(rlog), env.visible(), env.layers(), env.mode())
             if key == key0 and not nodedup and \
-                    (op[0] in ("get", "in") or (real[0] == "exc" and real[1] in REUSE_EXC)):
+                    (op[0] in ("get", "in") or (real[0] == "exc" and real[1] in REUSE_EXC) or
+                     (op[0] in ("uoa", "uoc") and not rlog and mk == mk0)):
                 # a refused / read-only operation: the very same objects serve the next operation
                 # (any hidden damage would surface there or in its drain)
                 fresh = True
@@ -923,8 +933,16 @@ def cross_check(ctx, profile, dedup_seen_within, dedup_vclasses, depth):
 # reserved root names (documented in the Context docstring): setting them in an
 # inner scope must shadow like any other name
 # =============================================================================
-RESERVED = ("failed", "aborted", "config", "active_outline", "cleanup_errors",
-            "feature", "text", "table", "fail_on_cleanup_errors")
+DOCUMENTED_ROOT_NAMES = ("failed", "aborted", "config", "active_outline", "cleanup_errors")
+
+
+def preset_names(ctx=None):
+    """every name a fresh Context holds in its test-run frame, enumerated from the real object"""
+    if ctx is None:
+        ctx = Env(handler=False).ctx
+    return tuple(sorted(k for k in ctx._stack[-1] if not k.startswith("@")))
+
+
 SHAPES = (("testrun",), ("testrun", "feature"), ("testrun", "feature", "scenario"),
           ("testrun", "feature", "rule", "scenario"))
 
@@ -993,12 +1011,120 @@ def reserved_case(case):
             "nt": case if depth > 1 else None}
 
 
-def reserved_cases():
+def reserved_cases(names):
     for script in ("shadow", "set-del", "root-under-shadow", "del-unset"):
         for si in range(len(SHAPES)):
-            for name in RESERVED:
+            for name in names:
                 for mode in ("BEHAVE", "USER"):
                     yield (name, si, mode, script)
+
+
+# =============================================================================
+# READ operations x every origin of a name: preset by Context.__init__, preset and then
+# re-set through _set_root_attribute, set by user code, set in behave mode, set through
+# _set_root_attribute (either mode) - read from every frame at or above the owner, both modes
+# =============================================================================
+ORIGINS = ("user", "behave", "root-user", "root-behave")
+
+
+def read_cases(names):
+    for si in range(len(SHAPES)):
+        for mode in ("BEHAVE", "USER"):
+            for name in names:
+                yield ("preset", name, si, mode, 0)
+            for set_at in range(len(SHAPES[si])):
+                for name in names:
+                    yield ("preset-reset", name, si, mode, set_at)
+                for origin in ORIGINS:
+                    yield (origin, "x", si, mode, set_at)
+
+
+def read_case(case):
+    """(origin, name, shape, reading mode, frame index at which the name gets its value)"""
+    origin, name, si, mode, set_at = case
+    shape = SHAPES[si]
+    with _Quiet():
+        env = Env(handler=False)
+        ctx = env.ctx
+        v, obs = [], []
+        where = "name %r (origin %s, set at frame %d), layers %r, read in %s mode" % (name, origin, set_at, shape, mode)
+        value = ("value", origin)
+        owner = set_at
+        if origin.startswith("preset"):
+            try:
+                value = getattr(ctx, name)
+            except Exception as e:      # pylint: disable=broad-except
+                value = ("<%s>" % type(e).__name__,)
+            owner = 0
+        for d, layer in enumerate(shape):
+            if d:
+                ctx._push(layer)
+            if d == set_at and origin != "preset":
+                if origin == "preset-reset":
+                    value = ("reset", name)
+                    ctx._set_root_attribute(name, value)
+                elif origin == "user":
+                    with ctx.use_with_user_mode():
+                        setattr(ctx, name, value)
+                elif origin == "behave":
+                    with ctx._use_with_behave_mode():
+                        setattr(ctx, name, value)
+                else:
+                    owner = 0
+                    with (ctx.use_with_user_mode() if origin == "root-user" else ctx._use_with_behave_mode()):
+                        ctx._set_root_attribute(name, value)
+        top = len(shape) - 1
+        calls = []
+
+        def factory():
+            calls.append(1)
+            return ("created", name)
+
+        def bad(clause, text):
+            v.append(({"subcheck": "reads", "clause": clause, "origin": origin},
+                      "%s: %s" % (where, text)))
+
+        def attempt(f):
+            try:
+                return ("ok", f())
+            except Exception as e:      # pylint: disable=broad-except
+                return ("exc", type(e).__name__)
+
+        with (ctx.use_with_user_mode() if mode == "USER" else ctx._use_with_behave_mode()):
+            steps = (
+                ("contains", lambda: name in ctx, lambda r: r == ("ok", True)),
+                ("hasattr", lambda: hasattr(ctx, name), lambda r: r == ("ok", True)),
+                ("get", lambda: getattr(ctx, name) is value, lambda r: r == ("ok", True)),
+                ("use_or_assign", lambda: ctx.use_or_assign_param(name, ("assigned", name)) is value,
+                 lambda r: r == ("ok", True)),
+                ("use_or_assign-created-nothing", lambda: getattr(ctx, name) is value, lambda r: r == ("ok", True)),
+                ("use_or_create", lambda: (ctx.use_or_create_param(name, factory) is value, len(calls)),
+                 lambda r: r == ("ok", (True, 0))),
+                ("use_or_create-created-nothing", lambda: getattr(ctx, name) is value, lambda r: r == ("ok", True)),
+                ("contains-again", lambda: name in ctx, lambda r: r == ("ok", True)),
+            )
+            for clause, f, good in steps:
+                r = attempt(f)
+                obs.append((clause, r))
+                if not good(r):
+                    bad(clause.split("-")[0], "%s gave %r" % (clause, r))
+                    break
+            else:
+                if owner != top:
+                    r = attempt(lambda: delattr(ctx, name))
+                    obs.append(("del-at-reader", r))
+                    if r != ("exc", "AttributeError"):
+                        bad("created-in-reading-scope", "del in the reading scope gave %r: a read created the name "
+                                                        "there" % (r,))
+                if not v:
+                    for d in range(top, owner, -1):
+                        ctx._pop()
+                    r = attempt(lambda: (name in ctx, getattr(ctx, name) is value))
+                    obs.append(("owner-scope", r))
+                    if r != ("ok", (True, True)):
+                        bad("unaltered", "back in the owning scope: (in, same value) = %r" % (r,))
+    return {"v": v, "dg": obs, "out": ("reads", origin, tuple(o[1][0] for o in obs)),
+            "nt": case if top > owner else None}
 
 
 # =============================================================================
@@ -1206,6 +1332,7 @@ class RunRec(object):
         self.paths = {}                 # id(model element) -> path
         self.tagcount = {}
         self.exec_obs = []
+        self.preset = ()                # names of a fresh Context's test-run frame
 
     # ---- cleanup callables
     def cleanup(self, k, tag):
@@ -1230,6 +1357,9 @@ class RunRec(object):
             except AttributeError:
                 val = "<AE>"
             probes.append((n, val, n in context))
+        for n in self.preset:
+            # names preset in the test-run scope: must be visible from every hook and step
+            probes.append((n, "<present>" if hasattr(context, n) else "<AE>", n in context))
         ops = []
 
         def attempt(label, f):
@@ -1373,6 +1503,8 @@ def real_run(style, exec_mode, raising, cbfault):
         runner = ModelRunner(cfg, [feature], step_registry=reg)
         runner.hooks = {name: rec.hook(name) for name in HOOKS}
         runner.formatters = []
+        from behave.runner import Context
+        rec.preset = preset_names(Context(runner))
         failed = runner.run()
     finally:
         sys.stdout, sys.stderr = saved[2], saved[3]
@@ -1436,6 +1568,14 @@ def run_case(case):
         # visibility of every name set so far
         for n, val, isin in probes:
             if n in tainted:
+                continue
+            if n in rec.preset:
+                if (val, isin) != ("<present>", True):
+                    v.append(({"subcheck": "runs", "clause": "contains" if val == "<present>" else "visible",
+                               "kind": "name-preset-in-test-run-scope"},
+                              "%s: callback #%d (%s at %r): hasattr(context, %r) is %r but (%r in context) is %r"
+                              % (where, k, kind, path, n, val == "<present>", n, isin)))
+                    break
                 continue
             want = "<AE>"
             for f in reversed(frames):
@@ -1571,7 +1711,13 @@ def run(ctx):
         bounds["no_dedup"][profile] = cross_check(ctx, profile, results[profile]["snapshot"],
                                                   results[profile]["vclasses"], depth)
     # ---- reserved names
-    ctx.sweep(reserved_case, list(reserved_cases()), chunk=16, name="reserved root names")
+    with _Quiet():
+        names = preset_names()
+    ctx.guard(set(DOCUMENTED_ROOT_NAMES) <= set(names) and PRESET in names,
+              "the documented root names are among the names of a fresh Context's test-run frame %r" % (names,))
+    ctx.sweep(reserved_case, list(reserved_cases(names)), chunk=16, name="reserved root names: writes")
+    ctx.sweep(read_case, list(read_cases(names)), chunk=16, name="read operations x name origins")
+    bounds["preset_names"] = list(names)
     # ---- E3
     maxn = 3 if quick else 4
     custom_upto = 2 if quick else 3
